@@ -139,9 +139,9 @@ def expected_words(w, sb):
     if kind in ("sq", "dq", "plain"):
         return [text]
     if kind == "brace":
-        return brace_expand(text)
+        return [x.replace("\\ ", " ") for x in brace_expand(text)]
     if kind == "range":
-        return range_expand(text)
+        return [x.replace("\\ ", " ") for x in range_expand(text)]
     if kind == "tilde":
         if text == "~" or text.startswith("~/"):
             return [sb.home + text[1:]]
@@ -161,16 +161,33 @@ def write_word(w):
 
 # -------------------------------------------------------------- running
 
+_delivery = "argv"
+
+
 def run_line(words, pop):
     sb = _sb
     populate(sb, pop)
     sb.reset_log()
-    line = "vp_argv " + " ".join(write_word(w) for w in words)
-    r = run_cicada(sb, ["-c", line], timeout=15.0)
-    recs = [x for x in sb.records() if x["name"] == "vp_argv"]
     want = []
     for w in words:
         want += expected_words(w, sb)
+    if _delivery == "for":
+        # the same words as the list of a `for` loop in a script: one iteration per word, in order
+        line = "for v in " + " ".join(write_word(w) for w in words) + "\n    vp_argv I \"$v\"\ndone\n"
+        path = os.path.join(sb.root, "forlist.sh")
+        with open(path, "w") as f:
+            f.write(line)
+        r = run_cicada(sb, [path], timeout=15.0)
+        its = [x for x in sb.records() if x["name"] == "vp_argv"]
+        # fold the iterations into one pseudo record so that the same comparison applies
+        if any(x["argv"][1:2] != ["I"] or len(x["argv"]) != 3 for x in its):
+            recs = [{"argv": ["vp_argv", "<an iteration received %r>" % (x["argv"][1:],)]} for x in its[:1]]
+        else:
+            recs = [{"argv": ["vp_argv"] + [x["argv"][2] for x in its]}]
+        return line, r, recs, want
+    line = "vp_argv " + " ".join(write_word(w) for w in words)
+    r = run_cicada(sb, ["-c", line], timeout=15.0)
+    recs = [x for x in sb.records() if x["name"] == "vp_argv"]
     return line, r, recs, want
 
 
@@ -192,6 +209,18 @@ def symptom(r, recs, want):
 
 
 def judge(case):
+    global _delivery
+    _delivery = case.get("delivery", "argv")
+    try:
+        v, sig, res = _judge(case)
+    finally:
+        _delivery = "argv"
+    if v == "violated" and case.get("delivery") == "for":
+        sig = sig + ":as-for-list"
+    return v, sig, res
+
+
+def _judge(case):
     words, pop = case["words"], POPS[case["pop"]]
     line, r, recs, want = run_line(words, pop)
     sym = symptom(r, recs, want)
@@ -264,8 +293,8 @@ def gen_word(rng):
         b = rng.choice([0, 1, 3, 5, 9, 10, -2, -5, 12])
         step = rng.choice([None, None, 1, 2, 3, 0, 7])
         body = "{%d..%d%s}" % (a, b, "" if step is None else "..%d" % step)
-        pre = rng.choice(["", "", "a", "f-"])
-        suf = rng.choice(["", "", "b", ".txt"])
+        pre = rng.choice(["", "", "a", "f-", "f\\ "])
+        suf = rng.choice(["", "", "b", ".txt", "\\ z"])
         feat = "degenerate" if a == b else ("ascending" if a < b else "descending")
         if step not in (None, 1):
             feat += "+step"
@@ -290,7 +319,8 @@ def gen_word(rng):
 
 
 def gen_case(rng):
-    return {"words": [gen_word(rng) for _ in range(rng.randint(1, 4))], "pop": rng.randrange(len(POPS))}
+    return {"words": [gen_word(rng) for _ in range(rng.randint(1, 4))], "pop": rng.randrange(len(POPS)),
+            "delivery": "for" if rng.random() < 0.25 else "argv"}
 
 
 def _work(case):
